@@ -22,6 +22,7 @@ observer("IConnectivityLayer.qubit_ids", params=dict(self=REF("IConnectivityLaye
 # assumed pure function (C16 verifies the frequency-ordering helpers it is built from; the bounded stand-in checks parking on every layout)
 contract("connectivity_surface_code.get_requires_parking", params=dict(element=QID, edge_ids=SEQ(EID), connectivity=REF("ISurfaceCodeLayer")),
          returns=BOOL, pure=True, observer=True, verify=False, reads="*")
+# (assumed: the engine has no type parameters, and the field is typed for the gate lists, so storing a qubit id is a static mismatch)
 contract("Operation.type_park", params=dict(qubit_id=QID), returns=REF("Operation"), fresh_result=True, pure=True, verify=False,
          ensures=["result.identifier is qubit_id", "result.type == OperationType.PARK"])
 
@@ -69,7 +70,7 @@ observer("ISurfaceCodeLayer.parity_group_x", params=dict(self=REF("ISurfaceCodeL
 observer("ISurfaceCodeLayer.parity_group_z", params=dict(self=REF("ISurfaceCodeLayer")), returns=SEQ(REF("IParityGroup")), reads="*")
 observer("ISurfaceCodeLayer.data_qubit_ids", params=dict(self=REF("ISurfaceCodeLayer")), returns=SEQ(QID), reads="*")
 observer("ISurfaceCodeLayer.ancilla_qubit_ids", params=dict(self=REF("ISurfaceCodeLayer")), returns=SEQ(QID), reads="*")
-contract("GateSequenceLayer.empty", params=dict(), returns=LAYER, fresh_result=True, pure=True, verify=False,
+contract("GateSequenceLayer.empty", params=dict(), returns=LAYER, fresh_result=True, pure=True, props=P,
          ensures=["len(result._park_operations) == 0", "len(result._gate_operations) == 0"])
 
 GC = REF("IGenericSurfaceCodeLayer")
